@@ -169,6 +169,25 @@ def comm_fn(plan, issued):
         tdc.flush_allreduce_buckets()
         out['rej'] = rej
         out['ops_during_rejection'] = issued(rank) - before
+        # the same with a bucket PENDING: a valid tensor is queued first, then invalid ones of the same and of another dtype are
+        # offered; they must be refused without anything being sent (the pending bucket included)
+        pend = tdc.allreduce_bucketed(ms[0].clone(), symmetric=True, group=grp)
+        before2 = issued(rank)
+        other_dt = torch.float64 if dt != torch.float64 else torch.float32
+        for shp in plan['bad_shapes']:
+            for d_ in (dt, other_dt):
+                t = torch.zeros(*shp, dtype=d_)
+                try:
+                    tdc.allreduce_bucketed(t, symmetric=True, group=grp)
+                    rej.append(('allreduce_bucketed with a pending bucket', tuple(shp), 'accepted'))
+                except NonSquareTensorError:
+                    rej.append(('allreduce_bucketed with a pending bucket', tuple(shp), 'rejected'))
+                except Exception as e:  # noqa: BLE001
+                    rej.append(('allreduce_bucketed with a pending bucket', tuple(shp), type(e).__name__))
+        out['ops_during_rejection'] += issued(rank) - before2
+        tdc.flush_allreduce_buckets()
+        if not isinstance(pend, torch.Tensor):
+            pend.wait()
         res_ = {}
         for avg in (False, True):
             sym = [tdc.allreduce(m.clone(), average=avg, symmetric=True, group=grp) for m in ms]
